@@ -257,6 +257,13 @@ func mutate(r *gen.R, v interface{}) interface{} {
 }
 
 func cmpValue(r *gen.R) interface{} {
+	if r.P(4) {
+		// the members of the null class: explicit null and the value of an absent field
+		if r.P(50) {
+			return bsonkit.Missing
+		}
+		return nil
+	}
 	switch r.N(10) {
 	case 0, 1, 2, 3:
 		return r.Number()
